@@ -87,7 +87,7 @@ def random_geometry_recipe(rng, kind):
         r["n"] = rng.choice([1, 3, 17])
         r["colors"] = rng.random() < 0.5
     elif kind in ("path2d", "path3d"):
-        r["shape"] = rng.choice(["square", "nested", "polyline_open", "circle", "rounded", "dshape", "closed_circle", "reversed_arcs", "lens", "square_unmerged", "triangle_unmerged"]) if kind == "path2d" else rng.choice(["square", "polyline_open"])
+        r["shape"] = rng.choice(["square", "nested", "polyline_open", "circle", "rounded", "dshape", "closed_circle", "reversed_arcs", "lens", "square_unmerged", "triangle_unmerged"]) if kind == "path2d" else rng.choice(["square", "polyline_open", "two_segments", "three_pieces"])
     elif kind == "voxel":
         r["n"] = rng.choice([2, 3, 5, 9])
         r["fill"] = rng.choice([0.2, 0.5, 0.9, 0.01, 0.995])
@@ -185,7 +185,14 @@ def build_geometry(r, fmt=None):
         sq = np.array([[0, 0], [2, 0], [2, 1.5], [0, 1.5]], dtype=float) + j
         if kind == "path3d":
             V3 = np.column_stack([sq, rs.uniform(-0.5, 0.5, 4)])
-            ents = [Line([0, 1, 2, 3, 0])] if shape == "square" else [Line([0, 1, 2, 3])]
+            if shape == "two_segments":
+                # entities that do not touch: the gaps between them are not segments
+                ents = [Line([0, 1]), Line([2, 3])]
+            elif shape == "three_pieces":
+                V3 = np.vstack([V3, V3[:2] + [0.0, 0.0, 3.0]])
+                ents = [Line([0, 1, 2]), Line([3, 0]), Line([4, 5])]
+            else:
+                ents = [Line([0, 1, 2, 3, 0])] if shape == "square" else [Line([0, 1, 2, 3])]
             return trimesh.path.Path3D(entities=ents, vertices=V3, process=False)
         if shape == "square":
             return trimesh.path.Path2D(entities=[Line([0, 1, 2, 3, 0])], vertices=sq, process=False)
@@ -409,7 +416,10 @@ def export_payload(obj, fmt, opts=None):
             files.update({k: (v if isinstance(v, bytes) else v.encode()) for k, v in extra.items()})
             return files, "model.obj", "obj"
         return {"model.obj": data.encode() if isinstance(data, str) else data}, "model.obj", "obj"
-    data = obj.export(file_type=fmt)
+    if fmt == "xyz" and opts.get("delimiter"):
+        data = obj.export(file_type="xyz", delimiter=opts["delimiter"])
+    else:
+        data = obj.export(file_type=fmt)
     if isinstance(data, str):
         data = data.encode("utf-8")
     if isinstance(data, dict):
@@ -426,10 +436,14 @@ def load_payload(files, main, ft, route="load", transport="bytesio", scratch=Non
     if ft in ("dict", "dict64"):
         d = json.loads(files[main].decode())
         if route == "load_path" or "entities" in d:
+            if kwargs.pop("dict_direct", False):
+                # the exported dict handed straight back to the loaders
+                return (trimesh.load_path(d) if route == "load_path" else trimesh.load(d)), None
             # the documented way back from the dict form of a path
             from trimesh.path.exchange.misc import dict_to_path
 
             return trimesh.load_path(dict_to_path(d)), None
+        kwargs.pop("dict_direct", None)
         return (trimesh.load(d, **kwargs) if route == "load" else (trimesh.load_scene(d, **kwargs) if route == "load_scene" else trimesh.load_mesh(d, **kwargs))), None
     resolver = None
     if len(files) > 1:
